@@ -396,7 +396,15 @@ def make_instance(rng, sc: Scenario):
             kw[f.alias] = f.default           # pass the default explicitly
         else:
             kw[f.alias] = rng.randrange(0, 40)
-    return sc.cl(**kw)
+    inst = sc.cl(**kw)
+    # attributes that are not __init__ arguments are assigned afterwards, as user code does: a value of their own more often than not
+    for f in sc.spec.fields:
+        if not f.init and rng.random() < 0.6:
+            val = rng.randrange(0, 40)
+            if f.conv:
+                val = T.K(val)
+            object.__setattr__(inst, f.name, val)
+    return inst
 
 
 def consistent_overrides(sc: Scenario):
@@ -445,8 +453,9 @@ def check_c09(v: Verdict, t1_summary, n_scen, n_inst):
         try:
             un = make_dict_unstructure_fn(sc.cl, conv, _cattrs_omit_if_default=sc.oid, _cattrs_use_alias=sc.use_alias,
                                           _cattrs_include_init_false=sc.incl, **T.real_overrides(sc.ovs))
-            st = make_dict_structure_fn(sc.cl, conv, _cattrs_use_alias=sc.use_alias, _cattrs_include_init_false=sc.incl,
-                                        _cattrs_forbid_extra_keys=False, **T.real_overrides(sc.ovs))
+            st = [make_dict_structure_fn(sc.cl, conv, _cattrs_use_alias=sc.use_alias, _cattrs_include_init_false=sc.incl,
+                                         _cattrs_forbid_extra_keys=False, _cattrs_detailed_validation=dvx, **T.real_overrides(sc.ovs))
+                  for dvx in (True, False)]        # the structure hook with the same customisation, in both validation modes
         except Exception as e:
             gen_err = e
             hist["generation_failures"] += 1
@@ -512,9 +521,10 @@ def check_c09(v: Verdict, t1_summary, n_scen, n_inst):
             if any(T.is_included(f, sc.ovs, sc.incl) and not hasattr(inst, f.name) for f in sc.spec.fields):
                 continue
             hist["roundtrips_checked"] += 1
-            try:
+            for st_dv, st_fn in zip((True, False), st):
+              try:
                 # the tagging handlers are not inverse to each other (u: +7, s: 1000*(n+1)+v): compare through them
-                back = st(d, sc.cl)
+                back = st_fn(dict(d), sc.cl)
                 for f in sc.spec.fields:
                     if not T.is_included(f, sc.ovs, sc.incl):
                         continue
@@ -530,9 +540,9 @@ def check_c09(v: Verdict, t1_summary, n_scen, n_inst):
                         want = f.default      # omitted on the way out, defaulted on the way in
                     if got != want:
                         raise AssertionError(f"attribute {f.name}: {got} != {want}")
-            except Exception as e:
+              except Exception as e:
                 v.violation("structure hook with the same customisation does not restore the included attributes",
-                            {"lane": "TPL/C09", "class": sc.describe(), "instance": repr(inst), "unstructured": d, "error": repr(e)})
+                            {"lane": "TPL/C09", "class": sc.describe(), "instance": repr(inst), "unstructured": d, "structure_detailed_validation": st_dv, "error": repr(e)})
         if si < 3:
             v.samples.append({"class": sc.describe()})
 
@@ -565,12 +575,71 @@ def check_c09(v: Verdict, t1_summary, n_scen, n_inst):
                 v.violation("NamedTuple dict hooks: rename / omit_if_default do not round-trip",
                             {"lane": "C09/namedtuple", "dv": dv, "instance": repr(inst), "unstructured": out})
 
+    c09_key_modes_battery(v, hist)
     hist["_intern"] = intern
     td_lane(v, t1_summary, "C09", max(10, n_scen // 2), 4, cases, meta, hist)
     del hist["_intern"]
     bad = run_tpl_model(v, f"c09_{v.seed}", cases, flags, "TPL/C09", intern)
     report_bad(v, bad, cases, meta, flags, "TPL/C09 (generated unstructure template: model dict = implementation dict)", intern)
     v.coverage["input_distribution"] = hist
+
+
+def c09_key_modes_battery(v, hist):
+    """systematic (no randomness): one attribute x {__init__ argument with default, init=False with default, init=False without default}
+    x {own name, override(rename), use_alias with a private name, use_alias with an explicit alias} x {included by
+    _cattrs_include_init_false, by override(omit=False)} x both validation modes x {value = default, another value}: the structure
+    hook generated with the same customisation restores the attribute from what the unstructure hook emitted, under the configured key"""
+    import attrs
+    from cattrs.gen import override
+    n = 0
+    for kind in ("init_default", "noinit_default", "noinit_nodefault"):
+        for keymode in ("name", "rename", "alias_private", "alias_explicit"):
+            for how in ("flag", "override"):
+                for dv in (True, False):
+                    for value in (5, 9):
+                        fname = "_tok" if keymode == "alias_private" else "tok"
+                        fkw = {"type": int}
+                        if kind != "noinit_nodefault":
+                            fkw["default"] = 5
+                        if kind != "init_default":
+                            fkw["init"] = False
+                        if keymode == "alias_explicit":
+                            fkw["alias"] = "token"
+                        cl = attrs.make_class("KM", {"lead": attrs.field(type=int), fname: attrs.field(**fkw)})
+                        opts = {"_cattrs_use_alias": keymode in ("alias_private", "alias_explicit")}
+                        ov = {}
+                        if keymode == "rename":
+                            ov["rename"] = "renamed"
+                        if kind != "init_default":
+                            if how == "flag":
+                                opts["_cattrs_include_init_false"] = True
+                            else:
+                                ov["omit"] = False
+                        elif how == "override":
+                            continue
+                        kw = dict(opts)
+                        if ov:
+                            kw[fname] = override(**ov)
+                        key = {"name": fname, "rename": "renamed", "alias_private": "tok", "alias_explicit": "token"}[keymode]
+                        desc = {"lane": "TPL/C09 key-modes", "attribute": kind, "key_mode": keymode, "included_by": how, "detailed_validation": dv,
+                                "value": value, "expected_key": key}
+                        n += 1
+                        try:
+                            conv = Converter(detailed_validation=dv)
+                            un = make_dict_unstructure_fn(cl, conv, **kw)
+                            st = make_dict_structure_fn(cl, conv, _cattrs_detailed_validation=dv, **kw)
+                            inst = cl(1) if kind != "init_default" else cl(1, value)
+                            if kind != "init_default":
+                                object.__setattr__(inst, fname, value)
+                            d = un(inst)
+                            back = st(dict(d), cl)
+                            if d != {"lead": 1, key: value} or getattr(back, fname) != value or back.lead != 1:
+                                v.violation("customised hooks: the attribute is not emitted under its configured key, or not restored from it",
+                                            {**desc, "unstructured": d, "restored": repr(back)})
+                        except Exception as e:
+                            v.violation("customised hooks failed on a consistent customisation", {**desc, "error": repr(e)})
+                        v.count(repr(desc), True)
+    hist["key_mode_cases"] = n
 
 
 def K_of(f):
